@@ -6,6 +6,7 @@ import FimVerif.Model.Arm
 * `["adms_store", [[gid, G], …], arm, [[d, gid], …]]` → `["ok", [[d, gid], …], [[gid, G], …]]` | `["err","query"]`
 * `["rekey", G, x]` → `["ok", raised, G']`
 * `["rekeys", G, [x1, x2, …]]` → `["ok", [[raised, G1], [raised, G2], …]]`  (re-keyed in sequence; stops changing after a raise)
+* `["rekeys_store", [[gid, G], …], [[gid, [x1, x2, …]], …]]` → `["ok", [[gid, [raised, …]], …], [[gid, G], …]]`  (chains of `rekeyS`, graph after graph)
 * `["keep", G, d]` → `["ok", [ids]]`
 
 `G = {"nodes": [[id, cls, [[k, v], …], ldel, cdel], …], "edges": [[a, b, rel, [[k, v], …]], …]}`,
@@ -97,6 +98,26 @@ def handle (j : Json) : Json :=
       let step := fun (acc : List (Bool × G) × G) x => let r := rekey acc.2 x; (acc.1 ++ [r], r.2)
       let out := (xs.foldl step ([], g)).1
       ok (Json.arr (out.map fun r => Json.arr #[.bool r.1, ofG r.2]).toArray)
+    | _, _ => err "bad-args"
+  | .arr #[.str "rekeys_store", s, chains] =>
+    match getStore s, chains with
+    | some s, .arr cs =>
+      let parsed := cs.toList.mapM fun c =>
+        match c with
+        | .arr #[.str x, xs] => (getStrs xs).map fun xs => (x, xs)
+        | _ => none
+      match parsed with
+      | some cs =>
+        let run := cs.foldl (fun (acc : List (String × List Bool) × Store) (c : String × List String) =>
+          let r := c.2.foldl (fun (a : List Bool × Store) new =>
+            match rekeyS a.2 c.1 new with
+            | some (raised, s') => (a.1 ++ [raised], s')
+            | none => (a.1 ++ [true], a.2)) ([], acc.2)
+          (acc.1 ++ [(c.1, r.1)], r.2)) ([], s)
+        Json.arr #[.str "ok",
+          Json.arr (run.1.map fun p => Json.arr #[.str p.1, Json.arr (p.2.map Json.bool).toArray]).toArray,
+          Json.arr (run.2.map fun p => Json.arr #[.str p.1, ofG p.2]).toArray]
+      | none => err "bad-args"
     | _, _ => err "bad-args"
   | .arr #[.str "adms_store", s, .str arm, m] =>
     match getStore s, getPairs m with
